@@ -12,11 +12,16 @@ EXPLANATION = (
     "subtraction/division) or matched by the reviewed site table below — each entry names the invariant or stated assumption that discharges it, or marks it as a finding. An unlisted, "
     "undischarged site is a violation: that is how `saturating_add`→`+`, `ok_or(..)?`→`unwrap()`, `get(0)`→`[0]` or a new division show up. R2 recursion: the only call-graph cycle is the "
     "weight recursion (owned by C11.R6). R3 loops: every natural loop is an iterator `for`/adapter loop or is in the confirmed table with its progress measure."
+    " Table verdicts that are evaluated rather than quoted: totals-gate (C01.R9), weights-capped (C05.R1), guarded-swap, priced-pool (every use of the reserves of a built-in pool as a divisor is unreachable when either reserve of that pool is zero - all three pools), guarded-withdraw (0 < total <= recorded liquidity), selected (C15 selection lengths). Imports C20.R3 and the activation table C06.R5."
 )
 NOT_DECIDED = ["aborts from memory exhaustion in general (C11.R5 covers the known materialisation sites)", "termination and panic-freedom of trusted-base code beyond the summarised conditions",
-               "the assumptions marked 'assume' (supply ≤ 2^127 — the property's precondition —, bounded block horizon, non-zero reserves of pools with outstanding liquidity)"]
-ASSUMPTIONS = ["no denomination's supply exceeds 2^127 (precondition of the property)", "block height stays below TIP-909 + 1.28e8 and u64::MAX (bounded horizon)",
-               "a pool with outstanding liquidity has non-zero reserves on both sides (C16's undecided clause)", "melpow 0.1.2, melstructs 0.3.3, num-rational panic conditions as summarised in rules/engine/panics.py"]
+               "the assumptions marked 'assume' in the site table: bounded horizon (heights, epochs, per-covenant coin counts below 2^64; halving index below 128), the work bound of MelPoW "
+               "(difficulty ≤ 64 once verify succeeded; reward·inflator < 2^128), and PoolState's own arithmetic (a swap never drains a side to zero)"]
+ASSUMPTIONS = ["block height stays below TIP-909 + 1.28e8 and u64::MAX; epochs and per-covenant coin counts stay below 2^64 (bounded horizon)",
+               "a successful melpow::Proof::verify implies difficulty ≤ 64 (melpow 0.1.2); a DoscMint reward times the inflator stays below 2^128 (needs ≈ 2^90 sequential hashes)",
+               "PoolState::swap_many never drains a side of a pool with non-zero reserves to zero (melstructs 0.3.3, read, not proved)",
+               "melpow 0.1.2, melstructs 0.3.3, num-rational panic conditions as summarised in rules/engine/panics.py",
+               "NOT assumed any more (each was false on networks that admit Faucet transactions, see D20/D21): a bounded coin supply, non-zero reserves of built-in pools, liquidity tokens in coins ≤ recorded liquidity"]
 
 # (regex on the site key `body|kind|what|operands`, verdict, reason)   verdict ∈ inv | assume | finding
 TABLE = [
